@@ -35,11 +35,11 @@ package connlimit
 //@   ghost_ensures cl.held[token] == old(cl.held[token]) - amount
 
 //@ func (*ConnLimiter).ServeHTTP
-//@   props C04 C14 C20
+//@   props C04 C09 C14 C20
 //@   requires held_nonneg: forall t string :: cl.held[t] >= 0
 //@   modifies everything
-//@   ensures balanced: forall t string :: cl.held[t] == old(cl.held[t])
-//@   ensures_panic balanced: forall t string :: cl.held[t] == old(cl.held[t])
+//@   ensures {C04,C09,C14,C20} balanced: forall t string :: cl.held[t] == old(cl.held[t])
+//@   ensures_panic {C04,C09,C14,C20} balanced: forall t string :: cl.held[t] == old(cl.held[t])
 //@   ensures one_outcome: calls(cl.next.ServeHTTP) + calls(cl.errHandler.ServeHTTP) == 1
 //@   ensures {C20} writes_nothing_itself: calls(w.WriteHeader) == 0 && calls(w.Write) == 0
 //@   ensures {C20} refusal_is_the_handlers: calls(cl.errHandler.ServeHTTP) == 1 ==> callarg(cl.errHandler.ServeHTTP, 0, 0) == w && callarg(cl.errHandler.ServeHTTP, 0, 1) == r
